@@ -154,9 +154,10 @@ def c11_extra(ctx: Ctx):
 
 
 # ================================================================== C13
-def c13_case(ctx: Ctx, case: dict):
+def c13_case(ctx: Ctx, case: dict, backend: str = "numpy", tag: str = "C13", count_case: bool = True):
+    """`backend` / `tag`: C03 runs the same split with the JAX backend (keys C03/jax/split/...)"""
     text = case["text"]
-    b = oracle.build_py(ctx, text, "C13", on_codegen_error="skip", scheme=[Scheme.explicit_euler])
+    b = oracle.build_py(ctx, text, tag, on_codegen_error="skip", scheme=[Scheme.explicit_euler])
     if b is None:
         return
     rm, ode = b.rm, b.ode
@@ -164,14 +165,15 @@ def c13_case(ctx: Ctx, case: dict):
     if len(comps) < 2:
         ctx.count("single_component")
         return
-    ctx.case(text, len(comps) >= 2 and len(rm.inters) >= 1, sample={"text": text, "components": comps})
+    if count_case:
+        ctx.case(text, len(comps) >= 2 and len(rm.inters) >= 1, sample={"text": text, "components": comps})
     pts = case.get("points") or ns.points_for(ctx, rm, ctx.n(2, 4), dts=(0.05,))
     for cname in comps:
         try:
             comp = ode.get_component(cname)
             sub, rest = comp.to_ode(), ode - comp
         except Exception as ex:
-            ctx.violate(f"C13/split-raises/{type(ex).__name__}", f"splitting off component {cname!r} raised {type(ex).__name__}: {str(ex)[:80]}", case={**case, "comp": cname})
+            ctx.violate(f"{tag}/split-raises/{type(ex).__name__}", f"splitting off component {cname!r} raised {type(ex).__name__}: {str(ex)[:80]}", case={**case, "comp": cname})
             return
         r = ctx.lean().call({"op": "split", "text": text, "comp": cname, "deps": oracle.impl_deps(ode)})
         # complementary: missing variables are exactly the names used but not defined
@@ -179,20 +181,20 @@ def c13_case(ctx: Ctx, case: dict):
             want = r[part]["missing"] if r.get("ok") else None
             got = sorted(pode.missing_variables)
             if want is not None and got != want:
-                ctx.violate(f"C13/missing-variables/{part}", f"missing variables of {part} of {cname!r} are {got}, the names used but not defined are {want}",
+                ctx.violate(f"{tag}/missing-variables/{part}", f"missing variables of {part} of {cname!r} are {got}, the names used but not defined are {want}",
                             case={**case, "comp": cname})
                 return
             if [pode.missing_variables[k] for k in got] != list(range(len(got))):
-                ctx.violate(f"C13/missing-index/{part}", "missing variable indices are not 0..n-1 in name order", case={**case, "comp": cname})
+                ctx.violate(f"{tag}/missing-index/{part}", "missing variable indices are not 0..n-1 in name order", case={**case, "comp": cname})
                 return
         st_sub = {s.name for s in sub.states}
         st_rest = {s.name for s in rest.states}
         shared = {a for c in rm.comps for a in c["states"]} and [n for n in rm.states if sum(n in c["states"] for c in rm.comps) > 1]
         if st_sub | st_rest != set(rm.states):
-            ctx.violate("C13/states-lost", f"states {sorted(set(rm.states) - (st_sub | st_rest))} are in neither part", case={**case, "comp": cname})
+            ctx.violate(f"{tag}/states-lost", f"states {sorted(set(rm.states) - (st_sub | st_rest))} are in neither part", case={**case, "comp": cname})
             return
         if not shared and st_sub & st_rest:
-            ctx.violate("C13/states-duplicated", f"states {sorted(st_sub & st_rest)} are in both parts", case={**case, "comp": cname})
+            ctx.violate(f"{tag}/states-duplicated", f"states {sorted(st_sub & st_rest)} are in both parts", case={**case, "comp": cname})
             return
         # numeric glue: each part, fed the other's missing values, reproduces the full model
         # (also with unused-variable removal: what one part does not use itself may be exactly what the other part asks for)
@@ -202,11 +204,11 @@ def c13_case(ctx: Ctx, case: dict):
             if ru:
                 part = part + "+remove_unused"
             try:
-                code = common.py_code(pode, scheme=[Scheme.explicit_euler], missing_values=other.missing_variables or None,
+                code = common.py_code(pode, backend=backend, scheme=[Scheme.explicit_euler], missing_values=other.missing_variables or None,
                                       **({"remove_unused": True} if ru else {}))
                 mod = common.exec_module(code)
             except Exception as ex:
-                ctx.violate(f"C13/part-codegen-raises/{type(ex).__name__}", f"code generation for {part} of {cname!r} raised {type(ex).__name__}: {str(ex)[:90]}",
+                ctx.violate(f"{tag}/part-codegen-raises/{type(ex).__name__}", f"code generation for {part} of {cname!r} raised {type(ex).__name__}: {str(ex)[:90]}",
                             case={**case, "comp": cname})
                 return
             mlay = {"state": [k for k, _ in sorted(mod.state.items(), key=lambda kv: kv[1])],
@@ -227,7 +229,7 @@ def c13_case(ctx: Ctx, case: dict):
                     p = np.array([float(full[n]) for n in mlay["param"]])
                     mv = np.array([float(full[n]) for n in mlay["missing"]]) if mlay["missing"] else None
                 except KeyError as ex:
-                    ctx.violate("C13/unknown-name", f"{part} of {cname!r} needs {ex} which the full model does not define", case={**case, "comp": cname})
+                    ctx.violate(f"{tag}/unknown-name", f"{part} of {cname!r} needs {ex} which the full model does not define", case={**case, "comp": cname})
                     return
                 if mv is not None and not all(np.isfinite(mv)):
                     continue
@@ -235,7 +237,7 @@ def c13_case(ctx: Ctx, case: dict):
                     try:
                         out = np.asarray(oracle.call_py(getattr(mod, fn), order, states=s, t=pt["t"], dt=pt["dt"], parameters=p, missing=mv))
                     except Exception as ex:
-                        ctx.violate(f"C13/{fn}/raises/{type(ex).__name__}", f"{fn} of {part} of {cname!r} raised {type(ex).__name__}: {str(ex)[:90]}",
+                        ctx.violate(f"{tag}/{fn}/raises/{type(ex).__name__}", f"{fn} of {part} of {cname!r} raised {type(ex).__name__}: {str(ex)[:90]}",
                                     case={**case, "comp": cname, "points": [pt]})
                         return
                     ctx.count("calls")
@@ -245,7 +247,7 @@ def c13_case(ctx: Ctx, case: dict):
                         sp = spread
                     elif fn == "missing_values":
                         if len(out) != len(req):
-                            ctx.violate("C13/missing_values/length", f"missing_values returns {len(out)} entries for {len(req)} requested", case={**case, "comp": cname})
+                            ctx.violate(f"{tag}/missing_values/length", f"missing_values returns {len(out)} entries for {len(req)} requested", case={**case, "comp": cname})
                             return
                         slots = {n: i for i, n in enumerate(req) if n in full}
                         want = full
@@ -266,7 +268,7 @@ def c13_case(ctx: Ctx, case: dict):
                     ctx.count("values_ok", ok)
                     if bad:
                         name, got, ref = bad[0]
-                        ctx.violate(f"C13/{fn}/value", f"{fn} of {part} of {cname!r}: {name} = {oracle.fmt(got)} but the full model gives {oracle.fmt(ref)}",
+                        ctx.violate(f"{tag}/{fn}/value", f"{fn} of {part} of {cname!r}: {name} = {oracle.fmt(got)} but the full model gives {oracle.fmt(ref)}",
                                     case={**case, "comp": cname, "points": [pt]})
                         return
             # the translated missing_values passes the proven validator
@@ -457,8 +459,13 @@ def c16_gen(ctx: Ctx):
         a = avail_a[i % 3]
         if rng.random() < 0.35 and at == "0":
             # the singular variable is an intermediate that is a shifted state: u = x - a, singular at u = 0
+            # ... possibly through a chain of intermediates (u = x - a; v = u/2; w = 3*v: singular at w = 0, i.e. x = a)
             u = f"u{i}"
             pre.append(f"{u} = {x} - {a}")
+            for lvl in range(rng.choice([0, 0, 1, 2])):
+                v = f"u{i}_{lvl}"
+                pre.append(f"{v} = {u}/2" if lvl % 2 == 0 else f"{v} = 3*{u}")
+                u = v
             terms.append(t.format(x=u, a=a))
             sing_points.append((x, float(a)))
         else:
